@@ -185,7 +185,7 @@ def check(repo: Repo, run: Run) -> None:
     setter = [n for n in cls.body if isinstance(n, ast.FunctionDef) and n.name == "value" and n is not getter]
     if setter:
         s = ast.unparse(setter[0])
-        run.ob("C12.N1", "Referent.value.setter", "self._value = ref_to" in s and "self._value_set = True" in s,
+        run.shape("C12.N1", "Referent.value.setter", "self._value = ref_to" in s and "self._value_set = True" in s,
                "the setter stores the value and marks it set", ev.loc(setter[0]))
     # N2 -----------------------------------------------------------------
     E = ev.cls("Evaluator")
@@ -206,20 +206,20 @@ def check(repo: Repo, run: Run) -> None:
                f"Evaluator.{b}: the body is evaluated by the sub-evaluator with exactly the iteration variable(s) bound ({n_vars})", ev.loc(fn))
     sa = meths.get("set_activation")
     s = ast.unparse(sa) if sa else ""
-    run.ob("C12.N2", "Evaluator.set_activation", "self.base_activation.clone()" in s and "load_values(values)" in s,
+    run.shape("C12.N2", "Evaluator.set_activation", "self.base_activation.clone()" in s and "load_values(values)" in s,
            "bindings of a (macro) call are loaded into a clone of the evaluator's base activation, in front of what it already holds", ev.loc(sa) if sa else str(ev.path))
     for m in ("macro_map", "macro_filter", "macro_exists_one", "macro_exists", "macro_all"):
         fn = ev.func(m)
         s = ast.unparse(fn)
-        run.ob("C12.N2", m, "activation.nested_activation(vars={bind_variable:" in s,
+        run.shape("C12.N2", m, "activation.nested_activation(vars={bind_variable:" in s,
                f"{m} evaluates the body in activation.nested_activation(vars={{bind_variable: value}})", ev.loc(fn))
     na = ev.func("Activation.nested_activation")
     s = ast.unparse(na)
-    run.ob("C12.N2", "Activation.nested_activation", "based_on=self" in s and "vars=vars" in s and "functions=self.functions" in s and "package=self.package" in s,
+    run.shape("C12.N2", "Activation.nested_activation", "based_on=self" in s and "vars=vars" in s and "functions=self.functions" in s and "package=self.package" in s,
            "a nested activation chains to its parent (based_on=self) and keeps functions and package", ev.loc(na))
     init = ev.func("Activation.__init__")
     s = ast.unparse(init)
-    run.ob("C12.N2", "Activation.__init__|parent", "NameContainer(parent=based_on.identifiers if based_on else None)" in s,
+    run.shape("C12.N2", "Activation.__init__|parent", "NameContainer(parent=based_on.identifiers if based_on else None)" in s,
            "the identifiers of a nested activation have the parent's identifiers as parent scope", ev.loc(init))
     pi = ev.func("NameContainer.parent_iter")
     body = [ast.unparse(x) for x in pi.body if not (isinstance(x, ast.Expr) and isinstance(x.value, ast.Constant))]
@@ -247,5 +247,5 @@ def check(repo: Repo, run: Run) -> None:
            "annotations are loaded before values, so a binding replaces the declaration of the same name", ev.loc(init))
     lv = ev.func("NameContainer.load_values")
     s = ast.unparse(lv)
-    run.ob("C12.N4", "NameContainer.load_values", "context[final].value = refers_to" in s and "context.setdefault(final, Referent())" in s,
+    run.shape("C12.N4", "NameContainer.load_values", "context[final].value = refers_to" in s and "context.setdefault(final, Referent())" in s,
            "load_values sets the value on the existing Referent (declaration kept, binding wins through Referent.value)", ev.loc(lv))
